@@ -23,7 +23,8 @@ pub fn uints(u: &DIDUrl) -> U {
 }
 fn take_u(v: &mut &[i64]) -> U { U { d: take1(v).unwrap(), r: take1(v).unwrap(), f: take1(v).unwrap() } }
 pub fn meth_json(u: U, data: i64) -> Value { json!({"id": ustr(u), "controller": DIDS[1], "type": "Ed25519VerificationKey2018", "publicKeyMultibase": format!("zDATA{}", data)}) }
-pub fn svc_json(u: U, data: i64) -> Value { json!({"id": ustr(u), "type": "T", "serviceEndpoint": format!("https://s.example/{}", data)}) }
+/// the service type is spelled in the three accepted JSON forms (string, one-element array, longer array), picked by the payload number
+pub fn svc_json(u: U, data: i64) -> Value { let ty = match data.rem_euclid(3) { 0 => json!("T"), 1 => json!(["T"]), _ => json!(["T", "U"]) }; json!({"id": ustr(u), "type": ty, "serviceEndpoint": format!("https://s.example/{}", data)}) }
 fn data_of(m: &VerificationMethod) -> i64 { match m.data() { MethodData::PublicKeyMultibase(s) => s.trim_start_matches("zDATA").parse().unwrap_or(-1), _ => -1 } }
 fn sdata_of(s: &Service) -> i64 {
   let v = serde_json::to_value(s.service_endpoint()).unwrap_or(Value::Null);
@@ -110,17 +111,21 @@ pub fn exec(case: &[i64]) -> Outcome {
   for _ in 0..5 { let n = take1(&mut v).unwrap(); let mut l = Vec::new(); for _ in 0..n { let t = take1(&mut v).unwrap(); let u = take_u(&mut v); if t == 0 { let x = take1(&mut v).unwrap(); l.push(meth_json(u, x)); } else { l.push(json!(ustr(u))); } } rels.push(l); }
   let n = take1(&mut v).unwrap(); let mut svc = Vec::new(); for _ in 0..n { let u = take_u(&mut v); let x = take1(&mut v).unwrap(); svc.push(svc_json(u, x)); }
   let nq = take1(&mut v).unwrap(); let mut queries = Vec::new(); for _ in 0..nq { queries.push((take1(&mut v).unwrap(), take1(&mut v).unwrap())); }
-  let j = json!({"id": DIDS[1], "verificationMethod": vm, "authentication": rels[0], "assertionMethod": rels[1], "keyAgreement": rels[2], "capabilityDelegation": rels[3], "capabilityInvocation": rels[4], "service": svc});
+  // controller: absent, a string, a one-element array, a two-element array (all accepted spellings), picked by the shape of the case
+  let ctrl_form = (vm.len() + 2 * svc.len() + nq as usize) % 4;
+  let mut j = json!({"id": DIDS[1], "verificationMethod": vm, "authentication": rels[0], "assertionMethod": rels[1], "keyAgreement": rels[2], "capabilityDelegation": rels[3], "capabilityInvocation": rels[4], "service": svc});
+  match ctrl_form { 1 => { j["controller"] = json!(DIDS[2]); } 2 => { j["controller"] = json!([DIDS[2]]); } 3 => { j["controller"] = json!([DIDS[2], DIDS[1]]); } _ => {} }
   // the builder is a second acceptance route: it must accept exactly the documents deserialisation accepts, and build an equal document
   let via_builder: Option<CoreDocument> = (|| {
     let mut b = CoreDocument::builder(Default::default()).id(DIDS[1].parse().ok()?);
+    if ctrl_form >= 1 { b = b.controller(DIDS[2].parse().ok()?); } if ctrl_form == 3 { b = b.controller(DIDS[1].parse().ok()?); }
     for m in &vm { b = b.verification_method(serde_json::from_value(m.clone()).ok()?); }
     for (k, l) in rels.iter().enumerate() { for e in l { let r: MethodRef = serde_json::from_value(e.clone()).ok()?;
       b = match k { 0 => b.authentication(r), 1 => b.assertion_method(r), 2 => b.key_agreement(r), 3 => b.capability_delegation(r), _ => b.capability_invocation(r) }; } }
     for sv in &svc { b = b.service(serde_json::from_value(sv.clone()).ok()?); }
     b.build().ok() })();
   let mut doc = match CoreDocument::from_json(&j.to_string()) { Ok(d) => d, Err(_) => { let o = Outcome::new(vec![0]).class("start-rejected"); return if via_builder.is_some() { o.fail("DocumentBuilder::build accepts a document that deserialisation rejects") } else { o.trivial() }; } };
-  match &via_builder { None => return Outcome::new(vec![1]).class("start-routes-disagree").fail("DocumentBuilder::build rejects a document that deserialisation accepts"), Some(b) => if *b != doc { return Outcome::new(vec![1]).class("start-routes-disagree").fail("builder and deserialisation give different documents"); } }
+  match &via_builder { None => return Outcome::new(vec![1]).class("start-routes-disagree").fail("DocumentBuilder::build rejects a document that deserialisation accepts"), Some(b) => if *b != doc && !(ctrl_form == 2 && { let mut d2 = doc.clone(); *d2.controller_mut() = b.controller().cloned(); *b == d2 }) { return Outcome::new(vec![1]).class("start-routes-disagree").fail("builder and deserialisation give different documents"); } }
   let mut obs = vec![1]; let mut why: Option<String> = None; let mut known = false;
   after(&doc, &queries, &mut obs, &mut why, &mut known);
   // the IotaDocument wrappers must track the core document exactly: same histories on a shadow IotaDocument
